@@ -38,8 +38,21 @@ SCALARS = {
     "SD": {"type": "vscal.Wrapped", "parse": "vscal.parse_SD", "serialize": "vscal.ser_SD"},
     "SE": {"type": "Wrapped", "parse": "parse_SE", "serialize": "ser_SE", "import": "vscal"},
     "SF": None,
+    # parse == type ("constructor as parser"): a plain class ...
+    "SG": {"type": "vscal.Sku", "parse": "vscal.Sku", "serialize": "vscal.ser_SG"},
+    # ... and a pydantic-native type (not instrumentable: checked through the VALUE, parse(raw) = Decimal(0.1))
+    "SH": {"type": "decimal.Decimal", "parse": "decimal.Decimal"},
+    # one parse / serialize function shared by two scalars
+    "SJ": {"type": "Any", "parse": "vscal.parse_shared", "serialize": "vscal.ser_shared"},
+    "SK": {"type": "Any", "parse": "vscal.parse_shared", "serialize": "vscal.ser_shared"},
+    # relative (in-package) path, module supplied through files_to_include
+    "SL": {"type": ".custom_scalars.Rel", "parse": ".custom_scalars.parse_rel", "serialize": ".custom_scalars.ser_rel"},
 }
-KIND = {"SA": "type-only", "SB": "+parse", "SC": "+serialize", "SD": "both-dotted", "SE": "import-key", "SF": "unconfigured"}
+KIND = {"SA": "type-only", "SB": "+parse", "SC": "+serialize", "SD": "both-dotted", "SE": "import-key", "SF": "unconfigured",
+        "SG": "parse==type(class)", "SH": "parse==type(Decimal)", "SJ": "shared-fn", "SK": "shared-fn", "SL": "relative-path"}
+UNLOGGED = {"SH"}          # parse is decimal.Decimal itself: no call log, the attribute value is compared instead
+CUSTOM_SCALARS_PY = (
+    "from vscal import Wrapped, _parse, _ser\n\nRel = Wrapped\nparse_rel = _parse(\"parse_rel\")\nser_rel = _ser(\"ser_rel\")\n")
 
 
 def fname(s, i):
@@ -58,7 +71,7 @@ def build_sdl():
                "\n  child: In\n  kids: [In!]\n}")
     out.append("input InReq {\n" + "\n".join(f"  {n}: {t}" for n, t in leaf if t.endswith("!")) + "\n}")
     args = ", ".join(f"{n}: {t}" for n, t in leaf)
-    out.append(f"type Query {{\n  obj: Obj\n  node: Node\n  nodes: [Node!]\n  u: U\n  echo({args}): Int\n"
+    out.append(f"type Query {{\n  obj: Obj\n  node: Node\n  nodeReq: Node!\n  nodes: [Node!]\n  u: U\n  echo({args}): Int\n"
                f"  in1(i: In, l: [In!], r: InReq): Int\n}}")
     out.append(f"type Subscription {{\n  echo({args}): Int\n  in1(i: In, l: [In!], r: InReq): Int\n}}")
     return "\n\n".join(out) + "\n", leaf
@@ -72,7 +85,9 @@ def build_queries(leaf, subscriptions=False):
          "query Abstract { node { id nb nd ... on NA { extraA } ... on NB { extraB } } nodes { ...NodeFrag } "
          "u { ... on NA { nb extraA } ... on NB { extraB } } }",
          "fragment NodeFrag on Node { id nd ... on NA { extraA } }",
-         "query Inputs($i: In, $l: [In!], $r: InReq) { in1(i: $i, l: $l, r: $r) }"]
+         "query Inputs($i: In, $l: [In!], $r: InReq) { in1(i: $i, l: $l, r: $r) }",
+         # a NON-NULL abstract field under @include: generated as Optional[Union[...]] = None
+         "query Cond($c: Boolean!) { nodeReq @include(if: $c) { id nb nd ... on NA { extraA } ... on NB { extraB } } }"]
     for s in SCALARS:
         vs = [(n, t) for n, t in leaf if n.startswith(s.lower())]
         q.append(f"query Echo{s}(" + ", ".join(f"${n}: {t}" for n, t in vs) + ") { echo(" +
@@ -103,6 +118,8 @@ class Gen:
         r = self.rng
         if scalar == "SA":
             return r.choice(RAW)
+        if scalar == "SH":
+            return r.choice([0.1, 2.5, "1.10", 7])
         return r.choice(["x", "2021-03-04T05:06:07", 17, {"k": [1, "two"]}])
 
     # ---- responses
@@ -133,13 +150,21 @@ class Gen:
             items = [self.arg(t.of_type, "rand" if mode == "null" else mode) for _ in range(n)]
             return ([Sym("l")] + [i[0] for i in items], [i[1] for i in items], [i[2] for i in items],
                     [o for i in items for o in i[3]])
+        if isinstance(t, GraphQLScalarType) and t.name in ("String", "ID", "Int", "Boolean", "Float"):
+            v = {"String": "s", "ID": "id-1", "Int": 3, "Boolean": True, "Float": 1.5}[t.name]
+            return argenc.json_sx(v), v, v, []
         if isinstance(t, GraphQLScalarType):
             raw = self.raw(t.name)
             cfg = SCALARS[t.name]
             ser = cfg["serialize"].rsplit(".", 1)[-1] if cfg and cfg.get("serialize") else None
             if t.name == "SA":
                 enc = {"$py": f"__import__('datetime').datetime.fromisoformat({raw!r})"}
-            elif cfg and cfg["type"].endswith("Wrapped"):
+            elif t.name == "SH":
+                raw = str(raw)
+                enc = {"$py": f"__import__('decimal').Decimal({raw!r})"}
+            elif t.name == "SG":
+                enc = {"$py": f"__import__('vscal').Sku.make({raw!r})"}
+            elif cfg and cfg["type"].rsplit(".", 1)[-1] in ("Wrapped", "Rel"):
                 enc = {"$py": f"__import__('vscal').Wrapped('user', {raw!r})"}
             else:
                 enc = {"$dict": raw} if isinstance(raw, dict) else raw
@@ -193,6 +218,10 @@ def parse_name(scalar):
     return cfg["parse"].rsplit(".", 1)[-1] if cfg and cfg.get("parse") else None
 
 
+def logged_parse_name(scalar):
+    return None if scalar in UNLOGGED else parse_name(scalar)
+
+
 def oracle_parse(gs, t, data, out):
     """non-null occurrences of scalars with parse configured, walking the response by schema type."""
     if data is None:
@@ -204,7 +233,7 @@ def oracle_parse(gs, t, data, out):
             oracle_parse(gs, t.of_type, x, out)
         return
     if isinstance(t, GraphQLScalarType):
-        p = parse_name(t.name)
+        p = logged_parse_name(t.name)
         if p:
             out.append([p, data])
         return
@@ -255,8 +284,9 @@ def run(ctx):
     for snake in (True, False):
         for async_ in (True, False):
             scs.append(Scenario(seed=len(scs), sdl=sdl, queries=build_queries(leaf, subscriptions=async_),
-                                config={"convert_to_snake_case": snake, "async_client": async_, "scalars": cfg_sc},
-                                files={"vscal.py": argenc.VSCAL + VSCAL_EXTRA}))
+                                config={"convert_to_snake_case": snake, "async_client": async_, "scalars": cfg_sc,
+                                        "files_to_include": ["custom_scalars.py"]},
+                                files={"vscal.py": argenc.VSCAL + VSCAL_EXTRA, "custom_scalars.py": CUSTOM_SCALARS_PY}))
     ssx = argenc.schema_sx(gs, cfg_sc)
     n_rounds = 6 if not ctx.thorough else 40
     with workers.Scratch() as sc:
@@ -270,9 +300,135 @@ def run(ctx):
         results = scen.parallel(gens, lambda g: drive(ctx, g, gs, ssx, leaf, n_rounds), jobs=4)
     for g, rows in zip(gens, results):
         evaluate(ctx, g, gs, ssx, rows)
+    deep_inputs(ctx)
+    custom_operations(ctx)
+
+
+# ------------------------------------------------------------------ inputs nested >= 3 deep, include_all_inputs on / off
+DEEP_SDL = """scalar SA
+scalar SD
+input L1 { tag: String next: L2 }
+input L2 { next: L3 more: [L3!] }
+input L3 { when: SA ws: [SD] next: L3 }
+input Unused { x: SD y: Unused }
+type Query { deep(x: L1, y: [L1!]): Int }
+"""
+DEEP_Q = "query Deep($x: L1, $y: [L1!]) { deep(x: $x, y: $y) }\n"
+
+
+def deep_inputs(ctx):
+    """A scalar with a dotted path (datetime.datetime) and one with hooks used ONLY three input levels below the
+    operation's variable type; pruning of unused inputs on and off."""
+    run = ctx.run
+    gs = build_schema(DEEP_SDL)
+    cfg_sc = {"SA": SCALARS["SA"], "SD": SCALARS["SD"]}
+    scs = [Scenario(seed=100 + i, sdl=DEEP_SDL, queries=DEEP_Q,
+                    config={"convert_to_snake_case": True, "async_client": False, "scalars": cfg_sc,
+                            "include_all_inputs": inc},
+                    files={"vscal.py": argenc.VSCAL + VSCAL_EXTRA}) for i, inc in enumerate((False, True))]
+    ssx = argenc.schema_sx(gs, cfg_sc)
+    with workers.Scratch() as sc:
+        gens = scen.generate(scs, sc)
+        for g in gens:
+            inc = g.sc.config["include_all_inputs"]
+            run.dist("deep_inputs", f"include_all_inputs={inc}")
+            rep = {"schema": DEEP_SDL, "queries": DEEP_Q, "config": g.sc.config}
+            if not g.ok:
+                run.violation(f"deep inputs: generation fails: {g.res.get('exc')}", rep)
+                continue
+            ld = g.start()
+            try:
+                if not ld.get("ok"):
+                    run.violation(f"deep inputs (include_all_inputs={inc}): the generated package does not import: "
+                                  f"{json.dumps(ld.get('modules'))[:400]}", rep)
+                    continue
+                rng = random.Random(7 + ctx.seed)
+                gen = Gen(gs, rng, True)
+                rows = []
+                for k in range(4 if not ctx.thorough else 20):
+                    gen.depth_left = 6
+                    x_sx, x_enc, x_int, x_occ = gen.arg(gs.type_map["L1"], "full" if k == 0 else "rand", True)
+                    r = g.driver.ask({"cmd": "call_args", "method": "deep", "args": {"x": x_enc}, "intended": {"x": x_int}})
+                    rows.append(("inputs", "deep", ([x_sx], x_occ), r))
+            finally:
+                g.stop()
+            evaluate(ctx, g, gs, ssx, rows)
+
+
+# ------------------------------------------------------------------ custom operation builder arguments
+def custom_operations(ctx):
+    """enable_custom_operations: arguments of Query.<field>(...) of every wrapper shape for scalars with serialize."""
+    run = ctx.run
+    leaf = [(f"{s.lower()}{i}", w.format(s)) for s in ("SC", "SD") for i, w in enumerate(WRAPPERS)]
+    sdl = ("scalar SC\nscalar SD\ntype Query {\n  echo(" + ", ".join(f"{n}: {t}" for n, t in leaf) + "): Int\n  plain: Int\n}\n")
+    gs = build_schema(sdl)
+    cfg_sc = {"SC": SCALARS["SC"], "SD": SCALARS["SD"]}
+    sc0 = Scenario(seed=200, sdl=sdl, queries="query Plain { plain }\n",
+                   config={"convert_to_snake_case": True, "async_client": False, "scalars": cfg_sc,
+                           "enable_custom_operations": True},
+                   files={"vscal.py": argenc.VSCAL + VSCAL_EXTRA})
+    with workers.Scratch() as sc:
+        g = scen.generate([sc0], sc)[0]
+        rep0 = {"schema": sdl, "config": sc0.config}
+        if not g.ok:
+            run.violation(f"custom operations: generation fails: {g.res.get('exc')}", rep0)
+            return
+        ld = g.start()
+        try:
+            if not ld.get("ok"):
+                run.violation(f"custom operations: package does not import: {json.dumps(ld.get('modules'))[:400]}", rep0)
+                return
+            rng = random.Random(9 + ctx.seed)
+            gen = Gen(gs, rng, True)
+            for k in range(6 if not ctx.thorough else 30):
+                mode = ["full", "null", "rand"][k % 3] if k < 3 else "rand"
+                args, occ, values, list_typed = {}, [], [], False
+                for n, t in leaf:
+                    gt = gs.query_type.fields["echo"].args[n].type
+                    if not isinstance(gt, GraphQLNonNull) and (mode == "null" or rng.random() < 0.3):
+                        continue          # None = "argument not given" in the builder API
+                    sx, enc, it, oc = gen.arg(gt, "rand" if mode == "null" else mode, True)
+                    args[process(n, True)] = enc
+                    occ += oc
+                    values.append(it)
+                r = g.driver.ask({"cmd": "call_args", "method": "query", "args": args, "custom": {"field": "echo"}})
+                run.count()
+                run.dist("calls", "custom-operation")
+                run.nontrivial_case(hash(("custom", json.dumps(values, sort_keys=True))))
+                rep = dict(rep0, arguments=args, observed=r)
+                log = [[e[1], canon_logged(e[2])] for e in (r.get("log_build") or []) + (r.get("log_call") or []) if e[0] == "ser"]
+                exp = [[f, raw] for f, raw in occ]
+                sent = (r.get("request") or {}).get("variables")
+                problems = []
+                if multiset(log) != multiset(exp):
+                    extra = multiset(log) - multiset(exp)
+                    missing = multiset(exp) - multiset(log)
+                    problems.append(f"serialize calls differ from the non-None occurrences: extra {list(extra)[:2]} missing {list(missing)[:2]}")
+                if sent is None:
+                    problems.append(f"nothing sent: {r.get('exc')}")
+                elif multiset(list(sent.values())) != multiset(values):
+                    problems.append(f"transmitted values {list(sent.values())[:3]} differ from serialize(value) per occurrence {values[:3]}")
+                if problems:
+                    # the failing arguments are list-typed ones (the builder drops list wrappers)
+                    run.finding("F15-custom-operation-list-argument", "custom operation: " + "; ".join(problems[:2]), rep)
+        finally:
+            g.stop()
 
 
 VSCAL_EXTRA = '''
+
+class Sku(Wrapped):
+    """type == parse: the class itself is the parse function."""
+
+    def __init__(self, raw, _log=True):
+        if _log:
+            LOG.append(["parse", "Sku", _enc(raw)])
+        Wrapped.__init__(self, "Sku", raw)
+
+    @classmethod
+    def make(cls, raw):
+        return cls(raw, _log=False)
+
 
 def __getattr__(name):
     if name.startswith("ser_"):
@@ -329,9 +485,9 @@ def k1_annotations(ctx, g_snake, g_plain, gs, ssx, leaf):
         for mod, used in (("results.py", SCALARS), ("input_types.py", SCALARS), ("client.py", SCALARS)):
             got = set()
             for node in trees[mod].body:
-                if isinstance(node, ast.ImportFrom) and node.level == 0:
+                if isinstance(node, ast.ImportFrom):
                     for a in node.names:
-                        got.add((node.module, a.name))
+                        got.add(("." * node.level + (node.module or ""), a.name))
             names_used = {n.id for n in ast.walk(trees[mod]) if isinstance(n, ast.Name)}
             for s, rows in imp.items():
                 for m, names in rows:
@@ -405,6 +561,10 @@ def drive(ctx, g, gs, ssx, leaf, n_rounds):
             r = g.driver.ask({"cmd": "call_args", "method": "abstract", "args": {}, "response_body": {"data": data},
                               "dump_result": True})
             rows.append(("abstract", mode, data, r))
+            data = {"nodeReq": node(rng.choice(["NA", "NB"]))}
+            r = g.driver.ask({"cmd": "call_args", "method": "cond", "args": {"c": True}, "response_body": {"data": data},
+                              "dump_result": True})
+            rows.append(("cond", mode, data, r))
             # ---- top-level arguments
             for s in SCALARS:
                 vs = [(n, gs.type_map["Obj"].fields[n].type) for n, _t in leaf if n.startswith(s.lower())]
@@ -496,7 +656,7 @@ def evaluate(ctx, g, gs, ssx, rows):
         log = [[e[1], canon_logged(e[2])] for e in (r.get("log_call") or [])]
         ser_log = [e for e, raw in zip(log, r.get("log_call") or []) if raw[0] == "ser"]
         par_log = [e for e, raw in zip(log, r.get("log_call") or []) if raw[0] == "parse"]
-        if kind in ("results", "abstract"):
+        if kind in ("results", "abstract", "cond"):
             data = payload
             run.nontrivial_case(hash((cfgname, kind, json.dumps(data, sort_keys=True))))
             rep["response"] = data
@@ -510,7 +670,11 @@ def evaluate(ctx, g, gs, ssx, rows):
             if multiset(par_log) != multiset(exp):
                 extra = multiset(par_log) - multiset(exp)
                 missing = multiset(exp) - multiset(par_log)
-                run.violation(f"{kind}: parse calls differ from the non-null occurrences: extra {dict(extra)} missing {dict(missing)}", rep)
+                what = f"{kind}: parse calls differ from the non-null occurrences: extra {dict(extra)} missing {dict(missing)}"
+                if kind == "cond" and not missing:
+                    run.finding("F30-conditional-abstract-not-discriminated", what, rep)
+                else:
+                    run.violation(what, rep)
             elif par_log != exp:
                 run.dist("parse_order", "same multiset, different order")
             if ser_log:
@@ -623,7 +787,12 @@ def check_result_values(run, gs, data, repr_, rep):
             return
         if isinstance(t, GraphQLScalarType):
             p = parse_name(t.name)
-            if p:
+            if t.name == "SH":
+                import decimal
+
+                if not (isinstance(o, dict) and o.get("$repr") == repr(decimal.Decimal(d))):
+                    bad.append((path, f"expected parse(raw) = {decimal.Decimal(d)!r}", o))
+            elif p:
                 if not (isinstance(o, dict) and o.get("$repr") == f"Wrapped({p!r}, {d!r})"):
                     bad.append((path, f"expected parse result Wrapped({p!r}, {d!r})", o))
             elif t.name == "SA":
@@ -646,7 +815,7 @@ def check_result_values(run, gs, data, repr_, rep):
     if repr_ is None:
         return
     for k, v in data.items():
-        got = repr_["fields"].get(k, "<missing>")
+        got = next((repr_["fields"][c] for c in (process(k, True), process(k, False), k) if c in repr_["fields"]), "<missing>")
         walk(gs.query_type.fields[k].type, v, got, [k])
     if bad:
         run.violation(f"result attribute values are not parse(raw): {bad[:3]}", dict(rep, bad=bad[:10]))
